@@ -9,13 +9,11 @@
   * `Block::type_info` keeps typing after a `never` expression and reports the whole block's state
     (also when a `return`/`abort` ends it early);
   * `Return::type_info` / `Abort::type_info` do not apply the state changes of their operand;
-  * `Op::type_info`: `/` never applies the state changes of its right operand and drops the
-    fallibility/`returns` of both operands; `&&` with an always-false lhs drops the lhs' `returns`
-    and fallibility; the right operand of `??`/`||`/`&&` is typed in the state *after* the left one
+  * `Op::type_info`: the right operand of `??`/`||`/`&&` is typed in the state *after* the left one
     even when the left one failed half-way; `maybe_rhs` merges with `LocalEnv::merge`, which adds a
     variable first assigned by the right operand as if it were always assigned;
-  * `Query::delete_type_def` ignores variables (`del(x.a)` leaves type and constant of `x`);
-    a `del` whose `compact` is not a constant merges the external environment with itself;
+  * a `del` whose `compact` is not a constant merges the external environment with itself
+    (also for `del` on a variable, whose type is updated by `DelFn::type_info` itself);
   * `del({…}.a)` applies the effects of the container twice (once as argument, once in `DelFn`);
   * assignments take the constant of the right-hand side in the state *after* it;
   * `Details::merge` keeps a constant when both sides are `==` (so `0.0` and `-0.0` agree).
@@ -304,13 +302,14 @@ def opDef (o : Opcode) (l : TypeDef) (lv : Option Value) (r : TypeDef) (rv : Opt
   | .err => (l.union r).maybeFallible (l.fallible && r.fallible)
   | .or =>
     let l := l.upgradeUndefined
-    if l.kind.isNull || optValueEq lv (some (.bool false)) then r
+    -- always "false": the value is the rhs's, the lhs keeps its fallibility and `returns`
+    if l.kind.isNull || optValueEq lv (some (.bool false)) then (l.withKind Kind.never).union r
     else if !(l.kind.containsNull || l.kind.containsBoolean) || optValueEq lv (some (.bool true)) then l
     else (l.withKind l.kind.withoutNull).union r
   | .merge => l.mergeOverwrite r
   | .and =>
-    if l.kind.isNull || optValueEq lv (some (.bool false)) then TypeDef.boolean
-    else if optValueEq lv (some (.bool true)) then r.withKind Kind.boolean
+    if l.kind.isNull || optValueEq lv (some (.bool false)) then l.withKind Kind.boolean
+    else if optValueEq lv (some (.bool true)) then (l.union (r.fallibleUnless nullBool)).withKind Kind.boolean
     else ((l.fallibleUnless nullBool).union (r.fallibleUnless nullBool)).withKind Kind.boolean
   | .eq | .ne => (l.union r).withKind Kind.boolean
   | .gt | .ge | .lt | .le =>
@@ -318,8 +317,9 @@ def opDef (o : Opcode) (l : TypeDef) (lv : Option Value) (r : TypeDef) (rv : Opt
       (l.union r).withKind Kind.boolean
     else ((l.fallibleUnless numKind).union (r.fallibleUnless numKind)).withKind Kind.boolean
   | .div =>
-    -- `TypeDef::float()` drops the operands' fallibility and `returns`
-    if divInfallible l rv then TypeDef.float else TypeDef.float.setFallible
+    -- both operands are always evaluated: their fallibility and `returns` count
+    if divInfallible l rv then (l.union r).withKind Kind.float
+    else ((l.union r).withKind Kind.float).setFallible
   | .add | .sub | .mul => arithDef o l r (constNaN o lv rv)
 
 /-- `Op::type_info`, the state: `T1` after the lhs, `Tr` after the rhs typed in `T1`. -/
@@ -335,7 +335,6 @@ def opState (o : Opcode) (l : TypeDef) (lv : Option Value) (T1 Tr : TState) : TS
     if l.kind.isNull || optValueEq lv (some (.bool false)) then T1
     else if optValueEq lv (some (.bool true)) then Tr
     else maybeRhs T1 Tr
-  | .div => T1     -- the right operand's state changes are never applied
   | _ => Tr
 
 def opInfo (o : Opcode) (l : TypeDef) (lv : Option Value) (T1 : TState) (r : TypeDef) (Tr : TState)
@@ -432,6 +431,31 @@ def delExternal (T : TState) (ext : Option (Bool × Path)) (compact : Option Boo
   | some b => del b
   | none => (del false).mergeExternal (del true)
 
+/-- `type_def.remove(path, compact)` (the kind only; a panic of `Kind::remove` keeps the kind) -/
+def removeTd (t : TypeDef) (p : Path) (compact : Bool) : TypeDef :=
+  match t.kind.remove p compact with
+  | .ok (k, _) => { t with kind := k }
+  | .panic => t
+
+def removeTdPanics (t : TypeDef) (p : Path) (compact : Bool) : Bool :=
+  match t.kind.remove p compact with
+  | .ok _ => false
+  | .panic => true
+
+/-- `DelFn::type_info` on a variable that is in scope: its type loses the path (with either outcome
+    when `compact` is not known) and its constant is dropped. -/
+def delVarUpdate (T : TState) (n : String) (p : Path) (compact : Option Bool) : TState :=
+  match T.getVar n with
+  | none => T
+  | some d =>
+    let td := match compact with
+      | some b => removeTd d.td p b
+      | none => (removeTd d.td p false).union (removeTd d.td p true)
+    let oom := T.oom || (match compact with
+      | some b => removeTdPanics d.td p b
+      | none => removeTdPanics d.td p false || removeTdPanics d.td p true)
+    { T.setVar n { td := td, value := none } with oom := oom }
+
 /-- `arguments_with_unknown_type_validity` of a `del` call without `!`: the `compact` argument's
     kind (in the state before the arguments) is not within `boolean`. -/
 def delFallible (hasCompact : Bool) (compactKind : Kind) : Bool :=
@@ -508,8 +532,10 @@ mutual
       (TypeDef.never.withReturns (if hasMsg then (typeInfo msg T).1.returns else Kind.never),
        { T with oom := T.oom || (hasMsg && (typeInfo msg T).2.oom) })
     | .ret e, T =>
-      -- the state changes of the operand are not applied (only the out-of-model marker is kept)
-      (TypeDef.never.withReturns (typeInfo e T).1.kind, { T with oom := T.oom || (typeInfo e T).2.oom })
+      -- the state changes of the operand are not applied (only the out-of-model marker is kept);
+      -- `returns`: the operand's value, or whatever the operand itself may return
+      (TypeDef.never.withReturns ((typeInfo e T).1.kind.union (typeInfo e T).1.returns),
+       { T with oom := T.oom || (typeInfo e T).2.oom })
     | .delExt m p hasC c, T =>
       let cT := typeInfo c T
       let T2 := if hasC then cT.2 else T
@@ -521,7 +547,8 @@ mutual
       let T2 := if hasC then cT.2 else T
       let rt := (varDef T2 n).atPath p
       let compact := if hasC then (constOf c T2).bind asBoolean else none
-      (rt.maybeFallible (rt.fallible || delFallible hasC cT.1.kind), delExternal T2 none compact)
+      (rt.maybeFallible (rt.fallible || delFallible hasC cT.1.kind),
+       delVarUpdate (delExternal T2 none compact) n p compact)
     | .delExpr e p hasC c, T =>
       let a := typeInfo e T                       -- the argument `{…}.a` (`FunctionCall::type_info`)
       let cT := typeInfo c a.2
